@@ -1,4 +1,13 @@
+//! vh-shape: engines for the symbolic-expression library (C11).
+mod symexpr;
+
 fn main() {
-    eprintln!("usage: vh-shape <subcommand> [options]");
-    std::process::exit(2);
+    let cmd = std::env::args().nth(1).unwrap_or_default();
+    match cmd.as_str() {
+        "symexpr" => symexpr::main(),
+        _ => {
+            eprintln!("usage: vh-shape <symexpr> [options]");
+            std::process::exit(2);
+        }
+    }
 }
